@@ -582,6 +582,36 @@ func runC04(cx *Ctx, r *Report) {
 					}
 				}
 			}
+			// … or the value is the stored record itself with some fields assigned, wherever the
+			// assignments are spelled (inline, or in a helper that returns the updated copy)
+			if !ok {
+				var isUpdate func(t *Term, d int) bool
+				isUpdate = func(t *Term, d int) bool {
+					if t == nil || d > 6 {
+						return false
+					}
+					switch {
+					case t.Op == "phi" && len(t.Args) > 0:
+						for _, a := range t.Args {
+							if !isUpdate(a, d+1) {
+								return false
+							}
+						}
+						return true
+					case t.Op == "upd" && t.Name == "AssetSupply" && len(t.Args) >= 1:
+						return isUpdate(t.Args[0], d+1) || isStored(t.Args[0], d+1)
+					}
+					return false
+				}
+				v := x.ev.Args[1]
+				if v.Op == "call" && strings.HasSuffix(v.Name, "MustMarshal") && len(v.Args) == 2 {
+					v = v.Args[1]
+				}
+				if isUpdate(v, 0) {
+					ok = true
+					why = "the stored record with some of its fields assigned"
+				}
+			}
 			if !ok && strings.Contains(x.ev.Args[1].LooseString(), "math.ZeroInt()") {
 				// a fresh all-zero record may only be written where none exists for the denom:
 				// anywhere else it wipes the counters of open transfers and minted coins
@@ -791,6 +821,31 @@ func directionEdgeGuard(x hev, val string, wantEquals bool) bool {
 		} else {
 			cur = nil
 		}
+	}
+	return false
+}
+
+// isStored: the supply record as read from the store (or the one just created for a new
+// asset, whose write is a supply writer of its own), possibly one of several alternatives.
+func isStored(t *Term, d int) bool {
+	if t == nil || d > 8 {
+		return false
+	}
+	switch t.Op {
+	case "phi":
+		if len(t.Args) == 0 {
+			return false
+		}
+		for _, a := range t.Args {
+			if !isStored(a, d+1) {
+				return false
+			}
+		}
+		return true
+	case "extract":
+		return t.Name == "0" && len(t.Args) == 1 && isStored(t.Args[0], d+1)
+	case "call":
+		return strings.HasSuffix(t.Name, "Keeper.GetAssetSupply") || strings.HasSuffix(t.Name, "Keeper.CreateNewAssetSupply")
 	}
 	return false
 }
